@@ -11,7 +11,11 @@ compile histories parse several texts in random order first."""
 import itertools, json, os, random
 from vf import common, zast, zgen, zmodel as M, zcmp, zcheck
 
-DW_PROGS = ["entry ?root", "unit root ?root offset", "entry parent* ?root offset", "entry parent", "entry (offset == 0x1d) parent*", "unit root child", "entry abbrev", "abbrev entry",
+# programs working on ONE value (a DIE, a unit, an attribute) that the input stacks of many executions share
+VAL_PROGS = ["root", "parent", "parent*", "child", "unit", "root parent", "dup root drop parent", "attribute", "@AT_name", "offset", "label", '"%s"', "root offset",
+             "parent parent", "(|D| D root D parent)", "child parent", "unit root", "name", "?root", "abbrev code", "raw parent", "cooked root", '(|D| D root "%s" D "%s")']
+DW_PROGS = ["entry ?root", "unit root ?root offset", "entry parent* ?root offset", 'unit "%s"', '(|Dw| (10, 11, 12) "<%s>")', 'entry ?TAG_subprogram "%s"',
+            '(|Dw| Dw unit "%s" 16 "%s|%s")', '(|Dw| [Dw entry offset] "%s")', '(|Dw| Dw entry ?root "%( offset %)/%s")', "entry parent", "entry (offset == 0x1d) parent*", "unit root child", "entry abbrev", "abbrev entry",
             "entry ?(child) [child offset]", "entry @AT_name", "entry attribute value", "[entry offset] length", "symbol name",
             "entry (|D| D child ?(parent == D))", "entry root", "entry @AT_type*", "entry ?TAG_subprogram child ?root"]
 INPUTS = ["", "i:3:dec:0", "i:3:dec:0,s:6162:1", "s:61:0,u:7:hex:2,i:-1:dec:0"]
@@ -294,6 +298,48 @@ def job_dwarf(payload):
                         out["bad"].append(("impure:after-abandoned-execution", dict(file=tag, abandoned=a, after_pulls=k, query=b,
                                                                                       got=len(rb["res"]), want=len(refs[b]["res"]))))
                     d.req("rdestroy rid=rb"); d.req("qdestroy id=db")
+        # values kept across executions: a DIE reached through imports, one of a plain unit, a raw one, a unit, an attribute.
+        # Every execution gets a copy of the SAME kept value on its input stack; whatever ran before, it yields what a fresh
+        # process yields for that value, and the kept value itself never changes
+        kept = []
+        picks = d.run("[entry ?(parent)] (|L| L elem ?(pos == 0), L elem ?(pos == L length 2 div), L relem ?(pos == 0))", inp="d:" + common.hx(path), fuel=0, max=10, timeout=120)
+        specs = []
+        for sres in (picks["res"] if picks["st"] == "done" else []):
+            v = sres[-1]
+            if v["t"] == "die":
+                specs.append("entry ?(offset == %#x)" % v["o"])
+        specs += ["raw entry ?(offset == %s)" % x.split("== ")[1].rstrip(")") for x in specs[:1]] + ["unit", "entry attribute"]
+        for i, sp in enumerate(specs[:6]):
+            src = "d:%s,q:%s" % (common.hx(path), common.hx("[%s] elem ?(pos == 0)" % sp))
+            rk = d.req("keep id=k%d in=%s" % (i, src), timeout=120)
+            if rk["st"] != "ok":
+                continue
+            vrefs = {}
+            for vp in VAL_PROGS:
+                dd = common.Driver()
+                try:
+                    dd.req("keep id=kr in=%s" % src, timeout=120)
+                    vrefs[vp] = dd.run(vp, inp="v:kr", fuel=0, max=100000, timeout=120)
+                finally:
+                    dd.kill()
+            kept.append((i, sp, rk["value"], vrefs))
+        for i, sp, ser0, vrefs in kept:
+            order = list(VAL_PROGS) * 2
+            rng.shuffle(order)
+            for vp in order:
+                rr = d.run(vp, inp="v:k%d" % i, fuel=0, max=100000, timeout=120)
+                out["dw_pulls"] += 1
+                out["kept_value_runs"] = out.get("kept_value_runs", 0) + 1
+                ref = vrefs[vp]
+                if rr["st"] != ref["st"] or [ser(x) for x in rr["res"]] != [ser(x) for x in ref["res"]]:
+                    out["bad"].append(("impure:kept-value-yields-differently-after-other-executions", dict(file=tag, value=sp, query=vp, got=len(rr["res"]), want=len(ref["res"]),
+                                                                                                       st=rr["st"], ref_st=ref["st"])))
+                    break
+                if not rr.get("in_same", True):
+                    out["bad"].append(("input-stack-modified", dict(file=tag, value=sp, query=vp))); break
+            chk2 = d.req("keep id=kx in=v:k%d" % i)
+            if chk2["st"] == "ok" and ser(chk2["value"]) != ser(ser0):
+                out["bad"].append(("impure:kept-value-changed", dict(file=tag, value=sp)))
         d.req("close id=dw")
         out["samples"].append(dict(file=tag, queries=DW_PROGS[:3]))
     except common.DriverCrash as ex:
@@ -327,6 +373,7 @@ def run(chk):
         "programs_whose_interleavings_were_enumerated_exhaustively": tot.get("exhaustive_sets", 0),
         "compile_histories": tot.get("compile_histories", 0), "ordered_text_pairs_compiled_in_one_process": tot.get("compile_pairs", 0),
         "histories_run_right_after_an_execution_that_raised": tot.get("after_error", 0),
+        "runs_on_values_kept_across_executions": tot.get("kept_value_runs", 0),
         "dwarf_reuse_histories": tot.get("dw_histories", 0), "dwarf_abandoned_executions_followed_by_full_runs": tot.get("dw_abandoned", 0),
         "state_types_seen": sorted((hs.get("state_types") or {}).keys()),
         "samples": samples[:5],
